@@ -22,7 +22,7 @@ func addRet(x *X, b int) (inv, ret int, ok bool) {
 // removable reports whether a bar may legitimately leave the frames.
 func removable(sp *Spec, x *X, b int) bool {
 	bs := sp.Bars[b]
-	if bs.Rm || sp.Pop {
+	if bs.Rm || (sp.Pop && !bs.NoPop) {
 		return true
 	}
 	// Abort(true) makes the bar removable unless the bar had already completed when it was issued
@@ -177,12 +177,13 @@ func c05Programs(tier string) []*Spec {
 			out = append(out, sp)
 			// pop mode
 			sp = &Spec{Name: "c05-pop", Refresh: rf, Q: q, Pop: true}
-			sp.Bars = []BarSpec{{Total: 1}, {Total: 2}}
-			sp.Main = []Op{{K: "add", B: 0}, {K: "add", B: 1}}
-			sp.Clients = [][]Op{{{K: "incr", B: 0, N: 1}}, completeOps(1, 2)}
+			sp.Bars = []BarSpec{{Total: 1}, {Total: 2}, {Total: 1, NoPop: true}}
+			sp.Main = []Op{{K: "add", B: 0}, {K: "add", B: 1}, {K: "add", B: 2}}
+			sp.Clients = [][]Op{{{K: "incr", B: 0, N: 1}, {K: "incr", B: 2, N: 1}}, completeOps(1, 2)}
 			if rf == "manual" {
-				sp.Clients = append(sp.Clients, []Op{{K: "refresh"}, {K: "refresh"}, {K: "refresh"}, {K: "refresh"}})
+				sp.Clients = append(sp.Clients, []Op{{K: "refresh"}, {K: "refresh"}, {K: "refresh"}, {K: "refresh"}, {K: "refresh"}, {K: "refresh"}})
 			}
+			sp.Notifier = true
 			out = append(out, sp)
 		}
 	}
